@@ -76,3 +76,19 @@ def negative_controls(tag, recs):
     if tried == 0:
         raise vlib.ToolError("no record suitable for negative controls")
     return rejected
+
+
+def sweep(tag):
+    """thorough tier: the exhaustive 256 x 256 byte-pair sweep (names, literal and hex strings, dictionary keys,
+    stream bodies), 1280 documents, judged like every other save/load cycle"""
+    w = workdir(tag + "-sweep")
+    tr = os.path.join(w, "pairs.ndjson")
+    run_bin("c01", ["pairs", "--from", 0, "--to", 256, "--out", tr])
+    recs = read_ndjson(tr)
+    bounds = [i for i, r in enumerate(recs) if r["ev"] == "Reset"]
+    verdicts, states, trans = vlib.validate_trace("Trace_Lifecycle.tla", "Trace_Lifecycle.cfg", recs, tag + "-sweep",
+                                                  boundaries=bounds, chunks=12, timeout=3000)
+    expected = sum(1 for r in recs if r["ev"] in ("Save", "Load"))
+    if len(verdicts) != expected:
+        raise vlib.ToolError("sweep: trace validator judged %d of %d calls" % (len(verdicts), expected))
+    return recs, verdicts, states, trans
